@@ -6,6 +6,7 @@ from .common import *
 from .d_c07 import greeting_v3, ready_frame, SIG
 
 MS = 1_000_000
+REPLAY_INCONCLUSIVE_WHEN_NOT_REPRODUCED = {"heartbeat_timeline": True}
 
 
 def _hb_engine(h, v2=False):
@@ -131,35 +132,87 @@ def v2_never_pings(h):
 
 
 def replay_heartbeat_timeline(model, params, role):
-    """native timeline: clock values become milliseconds offsets (engine creation = 0)"""
+    """Native replay: Instant::now() cannot be set, so every inbound frame is stamped 'engine creation time'
+    (a few ms at most) while tick instants are free. The timeline is replayed with ticks at their model
+    distance (in ms) from the handshake stamp plus 5 s; the native reactions are compared with the
+    reference automaton evaluated on those native times. A deviation reproduces a violation of the
+    automaton; no deviation means the model's clock values are not realisable natively (result: not
+    replayable, reported as such)."""
     ch = model.get("_choices", [])
-    lines = ["engine server type=PULL hb_ivl_ms=%d hb_timeout_ms=%d" % (model.get("ivl_ms", 1), model.get("timeout_ms", 1)),
+    d = dict(map(tuple, ch))
+    ivl_ms, tmo_ms = model.get("ivl_ms", 1), model.get("timeout_ms", 1)
+    lines = [f"engine server type=PULL hb_ivl_ms={ivl_ms} hb_timeout_ms={tmo_ms}",
              "start", "feed " + bytes(greeting_v3(b"NULL", 0) + ready_frame(b"PUSH")).hex()]
-    # natively Instant::now() cannot be set: all feeds happen "at once" (offset ~0 from engine creation),
-    # so ticks are placed at their model distance from the last activity stamp preceding them, accumulated.
     ts = sorted((int(k[1:]), v) for k, v in model.items() if k.startswith("t") and k[1:].isdigit())
     nows = sorted((int(k[4:]), v) for k, v in model.items() if k.startswith("_now"))
-    allv = sorted([v for _, v in ts] + [v for _, v in nows])
-    base = nows[1][1] if len(nows) > 1 else (allv[0] if allv else 0)   # _now0 = engine creation, _now1 = handshake completion
+    base = nows[1][1] if len(nows) > 1 else (ts[0][1] if ts else 0)
     ti = 0
-    evs = [c for c in ch if str(c[0]).startswith("ev")]
-    ctxl = {c[0]: c[1] for c in ch if str(c[0]).startswith("ctxlen")}
-    for name, kind in evs:
-        i = int(name[2:])
+    events = []          # (kind, tick_ms or None, more)
+    i = 0
+    while f"ev{i}" in d:
+        kind = d[f"ev{i}"]
         if kind == 0:
-            off = max(0, (ts[ti][1] - base)) // MS + 1 if ti < len(ts) else 0
+            off = max(0, (ts[ti][1] - base)) // MS + 5000 if ti < len(ts) else 5000
             ti += 1
-            lines.append(f"tick {off + 5000}")
+            lines.append(f"tick {off}")
+            events.append(("tick", off, 0))
         elif kind == 1:
-            lines.append("feed 0%d0161" % dict(map(tuple, ch)).get(f"more{i}", 0))
+            more = d.get(f"more{i}", 0)
+            lines.append("feed 0%d0161" % more)
+            events.append(("data", None, more))
         elif kind == 2:
             ctx = model.get(f"ctx{i}", "")
-            body = b"\x04PING\x00\x00" + bytes.fromhex(ctx)
+            body = b"\x04PING\x00\x00" + bytes.fromhex(ctx if isinstance(ctx, str) else "")
             lines.append("feed " + (bytes([4, len(body)]) + body).hex())
+            events.append(("ping", None, 0))
         else:
             lines.append("feed 0405" + b"\x04PONG".hex())
-    lines += ["phase", ""]
-    script = "\n".join(lines)
-    if "timeout-although-traffic" in role:
-        return script, (lambda out: "peer_error Timeout" in out), "timeline replayed with real time offsets; expecting heartbeat Timeout although frames arrived after the PING"
-    return script, (lambda out: False), "timeline (clock-dependent roles are not natively controllable)"
+            events.append(("pong", None, 0))
+        lines.append("phase")
+        i += 1
+    script = "\n".join(lines + [""])
+
+    def pred(out):
+        # split the native output per event at the 'phase' lines (the first 'phase' belongs to event 0)
+        chunks, cur = [], []
+        seen_setup = False
+        for l in out.splitlines():
+            if l.startswith("handshake_complete"):
+                seen_setup, cur = True, []
+                continue
+            if not seen_setup:
+                continue
+            cur.append(l)
+            if l.startswith("phase "):
+                chunks.append(cur)
+                cur = []
+        last_act, waiting, ping_time, closed = 0, False, None, False
+        for (kind, t, more), lines_ in zip(events, chunks):
+            if closed:
+                break
+            sent = [l for l in lines_ if l.startswith("send ")]
+            timeout = any(l.startswith("peer_error Timeout") for l in lines_)
+            wflag = any("waiting_pong=true" in l for l in lines_)
+            if kind == "tick":
+                exp_timeout = waiting and t - ping_time >= tmo_ms
+                exp_ping = (not exp_timeout) and (not waiting) and t - last_act >= ivl_ms + 50   # 50 ms slack for real stamps
+                maybe_ping = (not exp_timeout) and (not waiting) and t - last_act >= ivl_ms - 50
+                if timeout != exp_timeout:
+                    return True
+                if exp_timeout:
+                    closed = True
+                    continue
+                if bool(sent) and not maybe_ping:
+                    return True
+                if exp_ping and not sent:
+                    return True
+                if sent:
+                    waiting, ping_time = True, t
+            else:
+                waiting = False
+                if kind == "ping" and len(sent) != 1:
+                    return True
+            if wflag != waiting:
+                return True
+        return False
+    return script, pred, "timeline replayed natively and compared with the reference automaton on the native clock"
